@@ -24,7 +24,7 @@ pub fn check_value(v: u32, own: &mut Vec<u8>) -> Result<usize, String> {
     if !(1..=5).contains(&n) {
         return Err(format!("length {v}: encoded into {n} bytes"));
     }
-    let mut ctx = [0u8; 12];
+    let mut ctx;
     for (name, fill) in [("exact", None), ("followed by FF", Some(0xFFu8)), ("followed by 00", Some(0x00u8))] {
         let data: &[u8] = match fill {
             None => &own[..],
